@@ -7,6 +7,10 @@ def P(name, pkg, run, shards=None, budget=None, overlay=None, gomaxprocs=None):
             "budget_s": budget or {"quick": 240, "thorough": 1500},
             "overlay": overlay or [], "gomaxprocs": gomaxprocs}
 
+SVC_OV = [{"file": "services/basic_service.go", "rewrite": ['"sync"', '"go.uber.org/atomic"']},
+          {"file": "services/manager.go", "rewrite": ['"sync"', '"go.uber.org/atomic"']},
+          {"file": "services/failure_watcher.go", "rewrite": ['"sync"']}]
+
 CHECKS = {
     "C01": {"parts": [P("lookup", "./c01", "^TestC01$")]},
     "C02": {"parts": [P("quorum-intersection", "./c02", "^TestC02$")]},
@@ -14,10 +18,8 @@ CHECKS = {
     "C05": {"parts": [P("merge-bfs", "./c05", "^TestC05$")]},
     "C10": {"parts": [P("dobatch", "./c10", "^TestC10$", shards={"quick": 16, "thorough": 16}, budget={"quick": 200, "thorough": 1200}, gomaxprocs=1,
                       overlay=[{"file": "ring/batch.go", "rewrite": ['"sync"', '"go.uber.org/atomic"']}])]},
-    "C17": {"parts": [P("single-service", "./c17", "^TestC17Single$", shards={"quick": 16, "thorough": 16}, budget={"quick": 200, "thorough": 1200}, gomaxprocs=1,
-                      overlay=[{"file": "services/basic_service.go", "rewrite": ['"sync"', '"go.uber.org/atomic"']},
-                               {"file": "services/manager.go", "rewrite": ['"sync"', '"go.uber.org/atomic"']},
-                               {"file": "services/failure_watcher.go", "rewrite": ['"sync"']}])]},
+    "C17": {"parts": [P("single-service", "./c17", "^TestC17Single$", shards={"quick": 8, "thorough": 8}, budget={"quick": 200, "thorough": 1200}, gomaxprocs=1, overlay=SVC_OV),
+                      P("manager", "./c17", "^TestC17Manager$", shards={"quick": 8, "thorough": 8}, budget={"quick": 200, "thorough": 1200}, gomaxprocs=1, overlay=SVC_OV)]},
     "C14": {"parts": [P("instance-ranges", "./c14", "^TestC14Instances$"), P("partition-ranges", "./c14", "^TestC14Partitions$")]},
     "C16": {"parts": [P("random-generator", "./c16", "^TestC16Random$"), P("spread-minimizing", "./c16", "^TestC16SpreadMinimizing$")]},
     "C20": {"parts": [P("validation", "./c20", "^TestC20Validation$"), P("propagation", "./c20", "^TestC20Propagation$")]},
